@@ -179,8 +179,8 @@ variable (np : NP) (canon : Ty → Option Ty)
 /-- Agreement of one operation row under the oracle: whenever the node is typed and the code produces a single
 dtype on operands carrying the printed dtypes of their static types, that dtype is the printed static type. -/
 def OpAgree (k : Kind) (idx : Nat) (ts : List Ty) : Prop :=
-  ∀ t ds d, nodeTy k (ts.map some) = some t → allSome (ts.map canon) = some ds → single (np.op k idx ds) = some d →
-    canon t = some d
+  ∀ t ds d, nodeTy k (ts.map some) = some t → allSome (ts.map canon) = some ds →
+    single (if k.isCast then np.cast k idx ts else np.op k idx ds) = some d → canon t = some d
 
 def SymAgree (t : Ty) : Prop := ∀ d, single (np.symbol t) = some d → canon t = some d
 def ConstAgree (vc : VC) (t : Ty) : Prop := ∀ d, single (np.const vc t) = some d → canon t = some d
@@ -269,7 +269,20 @@ theorem node_step {senv denv : List (Option Ty)} (hI : Inv canon senv denv) (n :
     | none => rw [hm] at hd; simp at hd
     | some ds =>
       rw [hm] at hd
-      exact hop t ds d hs (allSome_canon_of_inv canon hI as ts ds hts hm) hd
+      simp only [Option.bind_some] at hd
+      refine hop t ds d hs (allSome_canon_of_inv canon hI as ts ds hts hm) ?_
+      by_cases hk : k.isCast = true
+      · simp only [hk, if_true] at hd ⊢
+        rw [hts] at hd
+        have : allSome (ts.map some) = some ts := by
+          clear hts hs hop hd
+          induction ts with
+          | nil => rfl
+          | cons x xs ih => simp [allSome, ih]
+        rw [this] at hd
+        exact hd
+      · simp only [hk] at hd ⊢
+        exact hd
 
 theorem inv_step {senv denv : List (Option Ty)} (hI : Inv canon senv denv) (n : Node) (hn : NodeOK np canon senv n) :
     Inv canon (senv ++ [nodeStatic senv n]) (denv ++ [nodeDyn np senv denv n]) := by
@@ -460,7 +473,12 @@ theorem opAgree_of_row (T : Tables) (hrows : T.rowsOK) (k : Kind) (idx : Nat) (t
     simp only [hct] at hnd
     rw [hra, hds, hrk, hri] at hnd
     simp only [Option.bind_some] at hnd
-    have hop : T.toNP.op k idx ds = (T.npLookup k idx ds).getD [] := rfl
+    have hop : (if k.isCast then T.toNP.cast k idx ts else T.toNP.op k idx ds) = (T.npLookup k idx ds).getD [] := by
+      by_cases hkc : k.isCast = true
+      · simp only [hkc, if_true]
+        show ((allSome (ts.map T.canonTy)).bind (T.npLookup k idx)).getD [] = _
+        rw [hds]; rfl
+      · simp only [hkc]; rfl
     rw [hop] at hsingle
     cases hl : T.npLookup k idx ds with
     | none => simp [hl, single] at hsingle
